@@ -230,6 +230,9 @@ func buildC09(p *Plan, evs []Ev) *c09Model {
 						break
 					}
 					if t == stop && j > 0 {
+						// a resend tick at the very instant the epoch is cut short (disconnect request, Close, ...):
+						// which of the two the client sees first is not determined
+						m.emits = append(m.emits, ctlEmit{t: t, svc: "ConnStateReq", ch: ch, optional: true, why: "resend tick coincides with the end of the epoch"})
 						break
 					}
 					m.emits = append(m.emits, ctlEmit{t: t, svc: "ConnStateReq", ch: ch, why: fmt.Sprintf("exchange %d, transmission %d", k, j)})
